@@ -83,6 +83,13 @@ class generic(metaclass=_Meta):
         return t in (generic, number, integer, floating)
 
 
+def ndindex(*shape):
+    import itertools as _it
+    if len(shape) == 1 and isinstance(shape[0], (tuple, list)):
+        shape = tuple(shape[0])
+    return _it.product(*[range(n) for n in shape])
+
+
 def ndim(x):
     if isinstance(x, ndarray):
         return x.ndim
